@@ -107,6 +107,7 @@ def _swarm_feat(cfg):
     f["rtcalls"] = cfg.random() < 0.6
     f["rec_builtin"] = cfg.random() < 0.4
     f["joins"] = cfg.random() < 0.4
+    f["bshadows"] = cfg.random() < 0.12
     f["threads"] = cfg.random() < 0.2
     f["tmpl"] = cfg.random() < 0.15
     f["lazy"] = cfg.random() < 0.12
@@ -240,6 +241,12 @@ def gen_program(rng, feat):
                 if cands:
                     f = funcs[rng.choice(cands)]
                     f["body"].insert(rng.randrange(len(f["body"]) + 1), {"t": "shadow", "name": v})
+    if feat.get("bshadows"):
+        # module-level helpers named like builtins, called by their bare name
+        for fn in names:
+            if funcs[fn]["kind"] != "class" and rng.random() < 0.3:
+                funcs[fn]["body"].insert(rng.randrange(len(funcs[fn]["body"]) + 1),
+                                         {"t": "shadow", "name": rng.choice(ir.BUILTIN_NAMES)})
     if feat.get("tmpl"):
         for fn in names:
             if rng.random() < 0.35:
@@ -651,6 +658,9 @@ def gen_edit(rng, prog, kinds):
                 fn, i, j = rng.choice(ml if ml and rng.random() < 0.5 else sites)
                 cur = prog["funcs"][fn]["body"][i]["args"][j].get("x")
                 return {"kind": "rtx", "f": fn, "item": i, "arg": j, "value": rng.choice([x for x in [2, 3, 5, 8] if x != cur])}
+        if k == "bfver" and any(it["t"] == "shadow" and it["name"] in ir.BUILTIN_NAMES
+                                for f in prog["funcs"].values() for it in f["body"]):
+            return {"kind": "bfver"}
         if k == "tmpl":
             fns = [fn for fn in names if prog["funcs"][fn].get("tmpl")]
             if fns:
@@ -777,6 +787,8 @@ def apply_edit(prog, e):
             a = p["funcs"][e["f"]]["body"][e["item"]]["args"][e["arg"]]
             if a["k"] in ("rt", "kwrt"):
                 a["x"] = e["value"]
+        elif k == "bfver":
+            p.setdefault("ext", {})["bf_ver"] = p.get("ext", {}).get("bf_ver", 1) + 1
         elif k == "tmpl":
             if p["funcs"][e["f"]].get("tmpl"):
                 p["funcs"][e["f"]]["tmpl"]["n"] += 1
